@@ -349,3 +349,4 @@ from engine.harness import borrowed  # noqa: E402
 HARNESSES.append(borrowed("c02", "H02-worker", "H16-worker-eager"))   # "the rest of the actor body does not run" after an answer given in a dependency
 HARNESSES.append(borrowed("c02", "H02-rabbit-slow-settle", "H16-rabbit-slow-settle"))   # one settle frame per delivery, whatever is cancelled
 HARNESSES.append(borrowed("c14", "H14-rabbit", "H16-rabbit-redelivery"))               # an action on a redelivered copy reaches the broker
+HARNESSES.append(borrowed("c02", "H02-rabbit-retry", "H16-rabbit-retry"))   # retry() through the message API on RabbitMQ settles the handle's own delivery
